@@ -185,6 +185,9 @@ struct TopoMachine : Machine {
     al.push_back({"kind_register", 2}); al.push_back({"kind_query", 1});
     al.push_back({"diff", 0});   // 23
     al.push_back({"shm_adopt", 0});   // 24
+    al.push_back({"battery", 0});     // 25
+    if (prop == "C09") { al[25].w = 12; al[0].w = 8; al[2].w = 4; al[1].w = 2; al[10].w = 1; al[11].w = 1; al[24].w = 1; for (size_t i = 13; i < 24; i++) al[i].w = 0; al[13].w = 2; }
+    else if (prop != "C01") al[25].w = 1;
     if (prop == "C19") { al[24].w = 7; al[12].w = 3; al[10].w = 1; al[3].w = 4; al[13].w = 2; al[14].w = 2; al[15].w = 1; al[18].w = 2; al[19].w = 2; al[20].w = 1; al[21].w = 2; al[22].w = 1; al[23].w = 1; }
     if (prop == "C02" || prop == "C12" || prop == "C13" || prop == "C14" || prop == "C15") al[24].w = 1;
     if (prop == "C16") { al[23].w = 14; al[0].w = 3; al[10].w = 1; al[11].w = 1; al[13].w = 2; al[18].w = 1; al[21].w = 1; }
@@ -205,7 +208,8 @@ struct TopoMachine : Machine {
       int rr = (int)ops.below(total); const char *k = nullptr; for (auto &x : al) { if (rr < x.w) { k = x.k; break; } rr -= x.w; }
       Op o(k); o.set("r", (int64_t)ops.below(4));
       std::string ks = k;
-      if (ks != "dup" && ks != "xml_restart" && ks != "destroy" && ks != "shm_adopt" && ops.chance(1, 2)) o.set("both", 1);
+      if (ks != "dup" && ks != "xml_restart" && ks != "destroy" && ks != "shm_adopt" && ks != "battery" && ops.chance(1, 2)) o.set("both", 1);
+      if (ks == "battery") o.setu("qs", ops.next()).set("nq", (int64_t)ops.below(40));
       if (ks == "shm_adopt") o.set("off", (int64_t)ops.below(4)).set("fault", (int64_t)ops.below(9)).set("hb", (int64_t)ops.below(1000));
       if (ks.rfind("dist_", 0) == 0 || ks.rfind("mem_", 0) == 0 || ks.rfind("kind_", 0) == 0) o.set("obs", (int64_t)ops.below(2));
       if (ks == "dist_add") o.set("kind", (int64_t)ops.below(10)).set("name", (int64_t)ops.below(4)).set("cf", (int64_t)ops.below(1000)).set("n", ops.chance(1, 5) ? (int64_t)ops.below(7) : 2 + (int64_t)ops.below(5)).set("mix", (int64_t)ops.below(1000)).set("ty", ops.chance(2, 3) ? (int64_t)ops.below(3) : (int64_t)ops.below(8)).setu("vs", ops.next()).set("vm", (int64_t)ops.below(3)).set("vf", (int64_t)ops.below(1000)).set("mf", (int64_t)ops.below(12));
@@ -255,6 +259,7 @@ struct TopoMachine : Machine {
     for (const Op &o : p.ops) {
       r.curop = o.kind; r.curopidx = idx++; r.nops++; steps_reset();
       bool repl_op = o.kind == "dup" || o.kind == "xml_restart" || o.kind == "destroy" || o.kind == "shm_adopt";
+      if (o.kind == "battery") { int bi = w.pick(o.u("r")); if (bi >= 0) { Replica &BR = w.r[bi]; if (!BR.last.ok) observe(w, bi, ""); battery(w, bi, o.u("qs"), (int)(o.u("nq") % 40) + 5); r.ev("battery r%d", bi); } continue; }
       if (repl_op) { if (!ops_repl(w, o) && !ops_shm(w, o)) r.ev("unknown op %s", o.kind.c_str()); continue; }
       int ri = w.pick(o.u("r")); if (ri < 0) break;
       exec_on(w, o, ri);
